@@ -44,6 +44,7 @@ func init() {
 }
 
 func runC15(c *Ctx, r *Report) {
+	importFoundation(c, r, "C15", "driver-options")
 	importFoundation(c, r, "C15", "transport-pipe")
 	r.Rule("C15/automaton", "every cell of the negotiation automaton (state x byte class [x verb]) has exactly the specified effects", 40)
 	r.Rule("C15/feed-all", "the negotiation loop hands every byte read to the handler, threads the control buffer, and aborts on a handler error", 3)
